@@ -30,7 +30,7 @@ struct HRec {
 	size_t want = 0; std::string data;
 };
 struct World {
-	std::vector<HRec> h; int live_functors = 0; int loop_thread = -1; bool stop_called = false;
+	std::vector<HRec> h; int live_functors = 0; int loop_thread = -1; bool stop_called = false; bool pair_starved = false; int pair_waits = 0;
 	std::map<std::pair<int,int>,bool> armed; std::set<int> xcancelled_fds; std::vector<std::pair<int,uint64_t>> xcancels; uint64_t evseq = 0;
 	int add(const std::string &k){ simk::TsanIgnore ign; h.emplace_back(); h.back().kind = k; return (int)h.size()-1; }
 };
@@ -73,6 +73,8 @@ struct E6 : Engine {
 					else { o["op"] = "yield"; }
 					ops.push(o); }
 				th.push(ops); }
+			// one pair of dependent jobs per plan: the first waits (on a worker) until the second has run; with two or more workers and every other job finite the second must get a worker
+			if(p.geti("workers") >= 2 && r.below(2)){ J &ops = th.a[r.below(nt)]; J o = J::obj(); o["op"] = "pair"; ops.a.insert(ops.a.begin() + r.below(ops.a.size() + 1),o); }
 			p["threads"] = th; p["stop_race"] = r.below(3) == 0;
 			return p;
 		}
@@ -80,6 +82,8 @@ struct E6 : Engine {
 		int npairs = r.below(5); p["pairs"] = npairs;
 		int nprod = 1 + r.below(4); J th = J::arr();
 		bool xthread = r.below(8) == 0;   // one run in eight cancels descriptor waits directly from a foreign thread
+		// operations issued before run() is called for the first time: everything is deferred to the queue, in order; a wait armed and cancelled there must be completed (canceled) as soon as the loop runs
+		if(npairs && r.below(4) == 0){ J pre = J::arr(); int n = 1 + r.below(5); for(int i=0;i<n;i++){ J o = J::obj(); unsigned x = r.below(10); if(x < 4){ o["op"] = "io"; o["p"] = (int)r.below(npairs); o["dir"] = r.below(4) == 0 ? 1 : 0; } else if(x < 8){ o["op"] = "cancel_io"; o["p"] = (int)r.below(npairs); } else { o["op"] = "post"; } pre.push(o); } p["pre"] = pre; }
 		for(int t=0;t<nprod;t++){ J ops = J::arr(); int n = 1 + r.below(thorough ? 16 : 9);
 			for(int i=0;i<n;i++){ J o = J::obj(); unsigned x = r.below(100);
 				if(x < 25){ o["op"] = "post"; }
@@ -116,6 +120,7 @@ struct E6 : Engine {
 			cppcms::thread_pool pool(workers);
 			std::vector<std::thread> thr;
 			std::map<int,int> job_of_id;   // pool id -> handler record
+			bool pair_used = false;
 			for(size_t t=0;t<nt;t++) thr.emplace_back([&,t]{
 				const J &ops = th.a[t];
 				for(size_t i=0;i<ops.size() && i<32;i++){ const J &o = ops.a[i]; std::string op = o.gets("op");
@@ -123,6 +128,9 @@ struct E6 : Engine {
 						Fn f(h);
 						int id = pool.post([f,throws,work]{ for(int k=0;k<work;k++) simk::yield(); f(); if(throws){ W->h[f.id].threw = true; throw std::runtime_error("job failed on purpose"); } });
 						ids[t].push_back(id); hids[t].push_back(h); }
+					else if(op == "pair" && workers >= 2 && !pair_used){ pair_used = true; int h1 = w.add("job"), h2 = w.add("job"); w.h[h1].posted_after_stop = w.h[h2].posted_after_stop = w.stop_called; Fn f1(h1), f2(h2);
+						pool.post([f1,h2]{ f1(); W->pair_waits++; if(!simk::block([h2]{ return W->h[h2].count > 0; },simk::now_us() + 30LL*1000000,"pair-wait")) W->pair_starved = true; });
+						pool.post([f2]{ f2(); }); }   // neither id is offered to cancel()
 					else if(op == "cancel"){ if(!ids[t].empty()){ size_t k = (size_t)(o.geti("i") % (int64_t)ids[t].size()); bool ok = pool.cancel(ids[t][k]); if(ok){ if(w.h[hids[t][k]].cancel_ok) res.fail("pool-cancel-twice","cancel succeeded twice for one job"); w.h[hids[t][k]].cancel_ok = true; } } }
 					else simk::yield();
 				} });
@@ -135,6 +143,8 @@ struct E6 : Engine {
 			}
 			w.stop_called = true; pool.stop();
 		}
+		if(w.pair_starved && !stop_race) res.fail("pool-job-starved-with-idle-worker","a job waited 30 simulated seconds on its worker for the job posted right after it, which never got one of the other " + std::to_string(workers - 1) + " workers although every other job is finite");
+		res.counters["pool_dependent_pairs"] = w.pair_waits;
 		int ran = 0, cancelled = 0, threw = 0;
 		for(size_t i=0;i<w.h.size();i++){ HRec &r = w.h[i];
 			if(r.count > 1) res.fail("handler-ran-twice","pool job #" + std::to_string(i) + " ran " + std::to_string(r.count) + " times");
@@ -159,7 +169,16 @@ struct E6 : Engine {
 		{
 			aio::io_service srv(reactor_type);
 			for(int i=0;i<npairs;i++){ int sv[2]; socketpair(AF_UNIX,SOCK_STREAM,0,sv); fcntl(sv[0],F_SETFL,O_NONBLOCK); fcntl(sv[1],F_SETFL,O_NONBLOCK); pairs.push_back({sv[0],sv[1]}); }
+			std::vector<int> pre_cancelled;   // handler records of waits armed and then cancelled before run()
+			{ const J &pre = plan.get("pre"); for(size_t i=0;i<pre.size() && i<16 && npairs;i++){ const J &o = pre.a[i]; std::string op = o.gets("op"); int p = (int)(((o.geti("p") % npairs) + npairs) % npairs); int fd = pairs[p].first;
+				if(op == "post"){ int h = w.add("post"); srv.post(Fn(h)); }
+				else if(op == "io"){ int dir = o.geti("dir") ? aio::io_events::out : aio::io_events::in; if(!w.armed[{fd,dir}]){ w.armed[{fd,dir}] = true; int h = w.add(dir == aio::io_events::in ? "io_in" : "io_out"); w.h[h].fd = fd; w.h[h].dir = dir; srv.set_io_event(fd,dir,Fn(h)); w.h[h].armed_seq = ++w.evseq; } }
+				else if(op == "cancel_io"){ for(size_t k=0;k<w.h.size();k++) if(w.h[k].fd == fd && w.h[k].count == 0 && std::find(pre_cancelled.begin(),pre_cancelled.end(),(int)k) == pre_cancelled.end()) pre_cancelled.push_back((int)k); srv.cancel_io_events(fd); } } }
 			std::thread loop([&]{ w.loop_thread = simk::self_id(); srv.run(); });
+			if(!pre_cancelled.empty() && !stop_race){
+				for(int k=0;k<2;k++){ int sn = w.add("post"); srv.post(Fn(sn)); simk::block([&w,sn]{ return w.h[sn].count > 0; },simk::now_us()+3600LL*1000000,"pre-sentinel"); }   // the canceler queues the completion behind the first sentinel
+				for(int h:pre_cancelled) if(w.h[h].count == 0){ res.fail("io-cancel-before-run-lost",w.h[h].kind + "#" + std::to_string(h) + ": set_io_event() and then cancel_io_events() were called before run(); the loop has since run two posted handlers but the cancelled wait was not completed"); break; }
+				res.counters["waits_cancelled_before_run"] = (long long)pre_cancelled.size(); }
 			// chains are set up on the loop thread (device objects are not thread safe)
 			for(size_t i=0;i<chs.size() && i<4;i++){
 				const J &c = chs.a[i]; auto ch = std::unique_ptr<Chain>(new Chain); ch->kind = c.gets("kind"); ch->cancel_after = (int)c.geti("cancel_after_ms",-1);
